@@ -213,7 +213,10 @@ def case_strategy():
         inc_body = draw(block(1, counter)) if draw(st.booleans()) else None
         ext = draw(st.sampled_from([".f90", ".F90"]))
         defines = draw(st.lists(gen_pp.define_sets(["A", "B", "C"]), min_size=1, max_size=3))
-        return {"body": body, "inc": inc_body, "ext": ext, "defines": defines}
+        # the included text may sit two include levels deep in a directory outside the code base, behind
+        # a header whose extension says "C": the language of the including Fortran file is inherited
+        nest = inc_body is not None and draw(st.integers(0, 2)) == 0
+        return {"body": body, "inc": inc_body, "ext": ext, "defines": defines, "nest": nest}
 
     return case()
 
@@ -232,7 +235,7 @@ def render(case):
             prev = [t for t, r in body[:k] if r == "code"]
             return not prev or not re.sub(r"!.*$", "", prev[-1]).rstrip().endswith("&") and not re.search(r"&\s*$", prev[-1])
         pos = next((k for k in (2, 1, 0, len(body)) if k <= len(body) and complete(k)), 0)
-        body = body[:pos] + [('#include "part.inc"', "directive")] + body[pos:]
+        body = body[:pos] + [('#include "mid.h"' if case.get("nest") else '#include "part.inc"', "directive")] + body[pos:]
     lines += body + [(t, "code") for t in TAIL]
     main = "\n".join(t for t, _ in lines) + "\n"
     inc = None
@@ -241,13 +244,13 @@ def render(case):
     return main, [r for _, r in lines], inc, [r for _, r in case["inc"]] if case["inc"] is not None else None
 
 
-def gfortran_ok(d, name):
-    p = subprocess.run(["gfortran", "-cpp", "-fsyntax-only", "-ffree-form", "-I", d, os.path.join(d, name)], cwd=d, stdout=subprocess.PIPE, stderr=subprocess.PIPE, text=True, errors="replace")
+def gfortran_ok(d, name, incdir=None):
+    p = subprocess.run(["gfortran", "-cpp", "-fsyntax-only", "-ffree-form", "-I", incdir or d, os.path.join(d, name)], cwd=d, stdout=subprocess.PIPE, stderr=subprocess.PIPE, text=True, errors="replace")
     return p.returncode == 0 and not p.stderr.strip(), p.stderr[:200]
 
 
-def gfortran_markers(d, name, defines):
-    p = subprocess.run(["gfortran", "-cpp", "-E", "-P", "-ffree-form", "-I", d, *["-D" + x for x in defines], os.path.join(d, name)], cwd=d, stdout=subprocess.PIPE, stderr=subprocess.PIPE, text=True, errors="replace")
+def gfortran_markers(d, name, defines, incdir=None):
+    p = subprocess.run(["gfortran", "-cpp", "-E", "-P", "-ffree-form", "-I", incdir or d, *["-D" + x for x in defines], os.path.join(d, name)], cwd=d, stdout=subprocess.PIPE, stderr=subprocess.PIPE, text=True, errors="replace")
     if p.returncode or p.stderr.strip():
         return None
     return {int(x) for x in re.findall(r"\bm_(\d+)\(\)", p.stdout)}
@@ -260,15 +263,24 @@ def check_case(case, res: Result):
     vs = []
     main, roles, inc, inc_roles = render(case)
     cj = {"case": case, "main": main, "inc": inc, "ext": case["ext"], "defines": case["defines"]}
-    with core.Scratch("c17") as d:
+    with core.Scratch("c17") as top:
+        nest = bool(case.get("nest")) and inc is not None
+        d = os.path.join(top, "cb") if nest else top
+        incdir = os.path.join(top, "ext") if nest else top
+        incname = "inner.h" if nest else "part.inc"
+        os.makedirs(d, exist_ok=True)
+        os.makedirs(incdir, exist_ok=True)
         name = "main" + case["ext"]
         with open(os.path.join(d, name), "w") as f:
             f.write(main)
         if inc is not None:
-            with open(os.path.join(d, "part.inc"), "w") as f:
+            with open(os.path.join(incdir, incname), "w") as f:
                 f.write(inc)
+        if nest:
+            with open(os.path.join(incdir, "mid.h"), "w") as f:
+                f.write('#include "inner.h"\n')
         # domain: gfortran accepts every define set silently (syntax of all branches differs per set)
-        ok, why = gfortran_ok(d, name)
+        ok, why = gfortran_ok(d, name, incdir)
         if not ok:
             res.discarded["gfortran-diagnosed"] += 1
             return []
@@ -280,13 +292,13 @@ def check_case(case, res: Result):
             sc, _ = scan(text.rstrip("\n"))
             if sc != by_construction:
                 raise core.HarnessError(f"reference scanner and generator disagree on {label}: scanner={sorted(sc)} generator={sorted(by_construction)}\n{text}")
-        for fname, text, rl in ((name, main, roles), ("part.inc", inc, inc_roles)):
+        for fname, text, rl in ((name, main, roles), (incname, inc, inc_roles)):
             if text is None:
                 continue
             exp = {i for i, r in enumerate(rl, 1) if r in ("code", "directive")}
             exp_dir = {i for i, r in enumerate(rl, 1) if r == "directive"}
             try:
-                tree = file_parser.FileParser(os.path.join(d, fname)).parse_file(language="fortran-free" if fname.endswith(".inc") else None)
+                tree = file_parser.FileParser(os.path.join(d if fname == name else incdir, fname)).parse_file(language="fortran-free" if fname != name else None)
             except Exception as e:
                 vs.append(make_violation(f"exception:{type(e).__name__}", cj, "parse succeeds", f"{type(e).__name__}: {e}"))
                 return vs
@@ -319,20 +331,34 @@ def check_case(case, res: Result):
         cfg = {}
         gf = {}
         for i, defs in enumerate(case["defines"]):
-            m = gfortran_markers(d, name, defs)
+            m = gfortran_markers(d, name, defs, incdir)
             if m is None:
                 res.discarded["gfortran-cpp-diagnosed"] += 1
                 return []
             gf[f"p{i}"] = m
-            cfg[f"p{i}"] = [observe.entry(os.path.join(d, name), defs, [d], [])]
+            cfg[f"p{i}"] = [observe.entry(os.path.join(d, name), defs, [incdir], [])]
         try:
             state, cb = observe.find(d, cfg)
         except Exception as e:
             return [make_violation(f"find-exception:{type(e).__name__}", cj, "analysis succeeds", f"{type(e).__name__}: {e}")]
-        for fname, text in ((name, main), ("part.inc", inc)):
+        if nest:
+            # the text reached through two include levels was scanned as Fortran (language inherited)
+            t2 = state.get_tree(os.path.join(incdir, incname))
+            exp2 = {i for i, r in enumerate(inc_roles, 1) if r in ("code", "directive")}
+            got2 = {ln for node in t2.walk() if isinstance(node, CodeNode) for ln in node.lines} if t2 is not None else None
+            if t2 is None:
+                res.labels["nested-include-not-reached-by-any-define-set"] += 1
+            elif got2 != exp2:
+                vs.append(make_violation("nested-include-not-scanned-as-fortran", cj, {"file": "ext/inner.h", "counted": sorted(exp2)}, {"counted": sorted(got2) if got2 is not None else None}))
+                return vs
+            else:
+                res.labels["nested-include-outside-code-base"] += 1
+        for fname, text in ((name, main), (incname, inc)):
             if text is None:
                 continue
-            a, probs = observe.attribution_of(state, os.path.join(d, fname))
+            if nest and fname != name and t2 is None:
+                continue  # never reached, so never parsed: nothing to attribute
+            a, probs = observe.attribution_of(state, os.path.join(d if fname == name else incdir, fname))
             for ln, t in enumerate(text.split("\n"), 1):
                 mm = re.search(r"\bcall m_(\d+)\(\)", t)
                 if mm and not t.lstrip().startswith("!"):
